@@ -3,9 +3,12 @@
    the abstract dump of the surviving store (None = torn beyond the abstraction) and whether the library
    recognises it (validate_structure and read_to_memory both succeed). *)
 From Geff Require Export Base Dtype Vlen Tree Validate Write Read.
+From Geff Require Export Dicts.
+From Geff Require Backends.
 Open Scope list_scope.
 (* IEntryCrash: one call of any writing entry point (Entry.ecall: converters, write_dicts, backend writers, ...) *)
 From Geff Require Export GraphVal Ctc TrackMate Entry.
+Open Scope m_scope.
 
 (* IApiCrash: the same through geff.write (graph-library writer): api_write = the wrapper's guard, then write_arrays(overwrite=False)
    on the arrays the backend built (captured by the harness) *)
@@ -17,7 +20,15 @@ Inductive input :=
    (NxBackend.write: list({k for ...})), which the converter model `c` does not have.  `c` is checked on result, final tree and
    survivors; the trace obligation is checked on `c'` = geff.write of the arrays in the order in which they were actually handed
    over (EApi on the captured arguments; e_run_two_guards: both are guarded_write) *)
-| IEntryCrash2 (pre : option znode) (c c' : ecall).
+| IEntryCrash2 (pre : option znode) (c c' : ecall)
+(* IDictsCrash: write_dicts itself, on the node / edge DICTIONARIES (Dicts.write_dicts: dict_props_to_arr, then write_arrays with its
+   default overwrite=False); INxCrash: geff.write(networkx graph, overwrite=...) on the dictionaries networkx reports, through
+   NxBackend.write behind the wrapper's guard -- no captured arrays.  nn / en: the property names in the order of the Python set
+   NxBackend.write builds (the order in which the properties are written shows in the crash states); names_ok checks that they are a
+   reordering of the names Backends.nx_write collects (Dicts.keys_of) *)
+| IDictsCrash (k : skind) (pre : option znode) (g : dgraph) (nn en : list string) (md : smeta)
+| INxCrash (k : skind) (pre : option znode) (directed : bool) (g : dgraph) (nn en : list string) (axes : option (list string))
+           (mdtok axtok : Z) (overwrite : bool).
 Inductive obs :=
   OCrash (r : res unit) (final : option znode) (survivors : list (option (option znode) * bool)).
 
@@ -32,15 +43,32 @@ Definition run_input (i : input) : st * res unit :=
   | ICrash k pre g md v ov => write_arrays k g md v ov (init pre)
   | IApiCrash k pre g md v ov => api_write k g md v ov (init pre)
   | IEntryCrash pre c | IEntryCrash2 pre c _ => e_run c (init pre)
+  | IDictsCrash k pre g nn en md => write_dicts k g nn en md (init pre)
+  | INxCrash k pre d g nn en axes mdtok axtok ov =>
+      (do exists_ <- check_for_geff k;
+       (if exists_ then (if ov then delete_geff k else fail FileExistsError) else ret tt) ;;
+       bind (lift (Backends.fresh_md d axes mdtok axtok)) (fun md => write_dicts k g nn en md)) (init pre)
   end.
 Definition pre_of (i : input) : option znode :=
-  match i with ICrash _ pre _ _ _ _ | IApiCrash _ pre _ _ _ _ => pre | IEntryCrash pre _ | IEntryCrash2 pre _ _ => pre end.
+  match i with
+  | ICrash _ pre _ _ _ _ | IApiCrash _ pre _ _ _ _ | IDictsCrash _ pre _ _ _ _ | INxCrash _ pre _ _ _ _ _ _ _ _ => pre
+  | IEntryCrash pre _ | IEntryCrash2 pre _ _ => pre
+  end.
 (* entry-point cases compare trees with the opaque metadata tokens blanked (Entry.zero_tok: the converters' models have their own
    token convention); a directory that exists without being a zarr group is dumped by the harness as a group without attributes *)
 Definition teq (i : input) (a b : option znode) : bool :=
   match i with IEntryCrash _ _ | IEntryCrash2 _ _ _ => otree_eqb (zero_tok a) (zero_tok b) | _ => otree_eqb a b end.
 Definition same_state_i (i : input) (d : option (option znode)) (st : option znode) : bool :=
   match d with Some t => teq i t st | None => false end.
+(* same names, each once *)
+Definition same_names (a b : list string) : bool :=
+  Nat.eqb (length a) (length b) && forallb (fun x => existsb (String.eqb x) b) a && forallb (fun x => existsb (String.eqb x) a) b
+  && Nat.eqb (length (Dicts.dedup a)) (length a).
+Definition names_ok (i : input) : bool :=
+  match i with
+  | INxCrash _ _ _ g nn en _ _ _ _ => same_names nn (Dicts.keys_of (map snd (Dicts.d_nodes g))) && same_names en (Dicts.keys_of (map snd (Dicts.d_edges g)))
+  | _ => true
+  end.
 Definition diag1 (c : input * obs) : list bool :=
   match c with
   | (i, OCrash r final survivors) =>
@@ -49,7 +77,8 @@ Definition diag1 (c : input * obs) : list bool :=
       [ res_eqb unit_eqb r' r;
         teq i (s_root s') final;
         forallb (fun dr => negb (snd dr) || same_state_i i (fst dr) (s_root s') || same_state_i i (fst dr) pre) survivors;
-        forallb (fun st => existsb (fun dr => same_state_i i (fst dr) st) survivors || teq i st final) (s_trace s') ]
+        forallb (fun st => existsb (fun dr => same_state_i i (fst dr) st) survivors || teq i st final) (s_trace s');
+        names_ok i ]
   end.
 Definition diag (c : input * obs) : list bool :=
   match c with
